@@ -192,3 +192,24 @@ pub fn __usize_cmp(a: usize, b: usize) -> (r: core::cmp::Ordering)
 pub fn __u64_cmp(a: u64, b: u64) -> (r: core::cmp::Ordering)
     ensures r == (if a < b { core::cmp::Ordering::Less } else if a == b { core::cmp::Ordering::Equal } else { core::cmp::Ordering::Greater })
 { unimplemented!() }
+
+//@ assume __all_zero_but_last : rule R30a: std semantics of `v.iter().rev().skip(1).all(Zero::is_zero)` on bytes
+#[verifier::external_body]
+pub fn __all_zero_but_last(v: &Vec<u8>) -> (r: bool)
+    ensures r == (forall|j: int| 0 <= j < v@.len() - 1 ==> v@[j] == 0)
+{ unimplemented!() }
+//@ assume __all_zero_but_first : rule R30b: std semantics of `v.iter().skip(1).all(Zero::is_zero)` on bytes
+#[verifier::external_body]
+pub fn __all_zero_but_first(v: &Vec<u8>) -> (r: bool)
+    ensures r == (forall|j: int| 1 <= j < v@.len() ==> v@[j] == 0)
+{ unimplemented!() }
+//@ assume __last_or_zero : rule R30c: std semantics of `v.last().cloned().unwrap_or(0)`
+#[verifier::external_body]
+pub fn __last_or_zero(v: &Vec<u8>) -> (r: u8)
+    ensures r == (if v@.len() > 0 { v@[v@.len() - 1] } else { 0u8 })
+{ unimplemented!() }
+//@ assume __first_or_zero : rule R30d: std semantics of `v.first().cloned().unwrap_or(0)`
+#[verifier::external_body]
+pub fn __first_or_zero(v: &Vec<u8>) -> (r: u8)
+    ensures r == (if v@.len() > 0 { v@[0] } else { 0u8 })
+{ unimplemented!() }
